@@ -10,7 +10,7 @@ ROOT = os.path.dirname(os.path.dirname(os.path.abspath(__file__)))
 NOT_APPLICABLE = {}
 
 # Properties whose check is finished and claimed (a module that merely exists is not claimed).
-READY = ["C01", "C02", "C03", "C04", "C05", "C06", "C07", "C08", "C09", "C10", "C11", "C12", "C13", "C15", "C17", "C18", "C19", "C20"]
+READY = ["C01", "C02", "C03", "C04", "C05", "C06", "C07", "C08", "C09", "C10", "C11", "C12", "C13", "C14", "C15", "C16", "C17", "C18", "C19", "C20"]
 
 ENGINES = [
     {"name": "E1 virtual-loop explorer", "path": "vt/vloop.py vt/explore.py", "kind_free_text": "stateless exhaustive exploration of environment-event schedules of the real asyncio code on a hand-stepped virtual-time event loop with in-memory transports"},
